@@ -3,6 +3,8 @@ package main
 import (
 	"math"
 
+	"github.com/ohler55/ojg/gen"
+
 	"verif/harness/lib"
 )
 
@@ -217,6 +219,52 @@ func bareFamily(emit func(kase)) {
 		emit(kase{t: bin("eq", pth(p), cst(nil)), data: els, stream: "nothing"})
 		emit(kase{t: un("not", pth(p)), data: els, stream: "nothing"})
 		emit(kase{t: bin("and", pth(p), pth(p)), data: els, stream: "nothing"})
+	}
+}
+
+// bareMultiFamily: a script that is ONLY a path whose path is multi-valued (wildcards): 0, 1, 2 and more values,
+// none / some / all of them `true`, `false`, null, numbers, containers, typed values. In Filter position the
+// one-cell template is an existence test (evalWithRoot's `bare` branch, tested BEFORE the `multi` branch); through
+// Script()/NewScript the path is laid out as `path exists true` and goes through the multi-valued expansion.
+func bareMultiFamily(emit func(kase)) {
+	lists := [][]any{
+		{}, {true}, {false}, {nil}, {int64(1)}, {int64(1), int64(2)}, {false, false}, {true, false}, {false, true}, {true, true}, {nil, nil},
+		{"x", nil}, {false, nil, int64(0)}, {[]any{}, map[string]any{}}, {[]any{int64(1), int64(2)}, []any{int64(3)}}, {[]any{}, []any{}},
+		{int64(0), 0.0, ""},
+		{map[string]any{"x": false}, map[string]any{"x": int64(1)}}, {map[string]any{"x": false}, map[string]any{"y": int64(1)}}, {map[string]any{"y": false}, map[string]any{"y": int64(1)}},
+	}
+	var els []any
+	for _, l := range lists {
+		els = append(els, map[string]any{"a": l})
+	}
+	els = append(els, map[string]any{"a": map[string]any{"p": false, "q": int64(2)}}, map[string]any{"a": map[string]any{"p": false}}, map[string]any{"a": map[string]any{}},
+		map[string]any{"b": []any{int64(1), int64(2)}}, map[string]any{"a": int64(3)}, []any{int64(1), int64(2)}, []any{false, false}, []any{}, int64(3))
+	// typed values as the selected values: only under paths that end at them (stepping INTO typed data is C05/C11)
+	var elsTyped []any
+	for _, l := range [][]any{{int8(1), []int{1}}, {[]int{1, 2}, []int{1, 2}}, {gen.Bool(false), gen.Bool(false)}, {gen.Bool(true), int64(1)}, {[]int{1}}, {myInt(1), nil}} {
+		elsTyped = append(elsTyped, map[string]any{"a": l})
+	}
+	w := frag{kind: 'w'}
+	for _, p := range []*pathT{{frags: []frag{{kind: 'c', key: "a"}, w}}, {root: true, frags: []frag{{kind: 'n', idx: 1}, {kind: 'c', key: "a"}, w}}} {
+		emit(kase{t: pth(p), data: elsTyped, stream: "bare.multi"})
+		emit(kase{t: bin("exists", pth(p), cst(true)), data: elsTyped, stream: "bare.multi"})
+		emit(kase{t: bin("eq", pth(p), cst(true)), data: elsTyped, stream: "bare.multi"})
+	}
+	paths := []*pathT{
+		{frags: []frag{{kind: 'c', key: "a"}, w}}, {frags: []frag{w}}, {frags: []frag{{kind: 'c', key: "a"}, w, w}}, {frags: []frag{{kind: 'c', key: "a"}, w, {kind: 'c', key: "x"}}},
+		{frags: []frag{w, w}}, {frags: []frag{w, {kind: 'n', idx: 0}}}, {frags: []frag{{kind: 'c', key: "a"}, w, {kind: 'n', idx: -1}}},
+		{root: true, frags: []frag{w, {kind: 'c', key: "a"}}}, {root: true, frags: []frag{{kind: 'n', idx: 1}, {kind: 'c', key: "a"}, w}},
+	}
+	for _, p := range paths {
+		emit(kase{t: pth(p), data: els, stream: "bare.multi"})
+		for i := 0; i+3 <= len(els); i += 3 {
+			emit(kase{t: pth(p), data: els[i : i+3], stream: "bare.multi"})
+		}
+		emit(kase{t: bin("exists", pth(p), cst(true)), data: els, stream: "bare.multi"})
+		emit(kase{t: bin("has", pth(p), cst(false)), data: els, stream: "bare.multi"})
+		emit(kase{t: bin("eq", pth(p), cst(true)), data: els, stream: "bare.multi"})
+		emit(kase{t: un("not", pth(p)), data: els, stream: "bare.multi"})
+		emit(kase{t: bin("or", pth(p), pth(p)), data: els, stream: "bare.multi"})
 	}
 }
 
